@@ -68,6 +68,9 @@ type BFile struct {
 	CRC            bool
 	Pad            int               // trailing pad bytes on every extensible record
 	SummaryUnknown map[string][]Unknown // unknown records inserted before the named summary group ("" = at the end of the summary)
+	// Within: order of the records inside every summary group: "" / "asc" as in the data section, "rev" reversed,
+	// "rot" rotated by one (the specification does not prescribe any)
+	Within string
 	// DefsUpFront: write all schemas and channels at the start of the data section (outside chunks)
 	DefsUpFront bool
 }
@@ -265,6 +268,20 @@ func Build(f *BFile) (*Built, error) {
 			w.Rec(un.Op, un.Body)
 		}
 	}
+	ord := func(n int) []int {
+		out := make([]int, n)
+		for i := range out {
+			switch f.Within {
+			case "rev":
+				out[i] = n - 1 - i
+			case "rot":
+				out[i] = (i + 1) % n
+			default:
+				out[i] = i
+			}
+		}
+		return out
+	}
 	for _, g := range f.SummaryOrder {
 		emitUnknown(g)
 		start := w.Pos()
@@ -272,13 +289,13 @@ func Build(f *BFile) (*Built, error) {
 		switch g {
 		case "Schema":
 			op = OpSchema
-			for _, s := range f.Schemas {
-				w.Rec(op, schemaBody(s))
+			for _, i := range ord(len(f.Schemas)) {
+				w.Rec(op, schemaBody(f.Schemas[i]))
 			}
 		case "Channel":
 			op = OpChannel
-			for _, c := range f.Channels {
-				w.Rec(op, chanBody(c))
+			for _, i := range ord(len(f.Channels)) {
+				w.Rec(op, chanBody(f.Channels[i]))
 			}
 		case "Statistics":
 			op = OpStatistics
@@ -291,17 +308,20 @@ func Build(f *BFile) (*Built, error) {
 			w.Rec(op, pad(BodyStatistics(nmsgs, uint16(len(f.Schemas)), uint32(len(f.Channels)), uint32(len(atts)), uint32(len(mds)), uint32(len(chunks)), minT, maxT, pc), f.Pad))
 		case "ChunkIndex":
 			op = OpChunkIndex
-			for _, c := range chunks {
+			for _, i := range ord(len(chunks)) {
+				c := chunks[i]
 				w.Rec(op, pad(BodyChunkIndex(c.start, c.end, c.pos, c.length, c.offs, c.msgIdxLen, []byte(c.compression), c.csize, c.usize), f.Pad))
 			}
 		case "AttachmentIndex":
 			op = OpAttachmentIndex
-			for _, a := range atts {
+			for _, i := range ord(len(atts)) {
+				a := atts[i]
 				w.Rec(op, pad(BodyAttachmentIndex(a.pos, a.length, a.a.Log, a.a.Create, uint64(len(a.a.Data)), a.a.Name, a.a.Media), f.Pad))
 			}
 		case "MetadataIndex":
 			op = OpMetadataIndex
-			for _, m := range mds {
+			for _, i := range ord(len(mds)) {
+				m := mds[i]
 				w.Rec(op, pad(BodyMetadataIndex(m.pos, m.length, m.m.Name), f.Pad))
 			}
 		}
